@@ -366,3 +366,14 @@ def mm_process_withdrawals():
                && #[trigger] wds_done(state.pools@, state.coins@.coins, state.height, reqs, mentioned_set(reqs), wl, wr, res.pools@, res.coins@.coins)""", "C15", "C01", "C16",
           note="every pool named by a genuine withdrawal request is settled exactly once: exactly the redeemed liquidity is retired, payouts leave the reserves and are split pro rata")]
     return d
+
+def mm_dosc_inflator():
+    return dict(ensures=[C("ratio", "res@ == (num::rational::Frac { n: spec_microergs(height.0 as nat) as int, d: 1_000_000 })", "C18", char=True)])
+
+def mm_process_pegging():
+    d = mm_phase("pegging")
+    d["ensures"] = d["ensures"] + [
+        C("pegged", """res.coins == state.coins && res.pools@.dom() == state.pools@.dom() && (forall|k: PoolKey| k != pk_mel_sym() && state.pools@.contains_key(k) ==> #[trigger] res.pools@[k] == state.pools@[k])
+               && res.pools@[pk_mel_sym()].liqs == state.pools@[pk_mel_sym()].liqs && pool_live(res.pools@[pk_mel_sym()])""", "C01", "C16", "C15",
+          note="pegging touches no coin and no pool other than MEL/SYM, whose liquidity count is unchanged (the reserves it adds are listed issuance)")]
+    return d
